@@ -41,13 +41,14 @@ CLAIMS = {
          "Narrow: PATH_CHALLENGE/RESPONSE processing, the PathValidation timeout handler and the migration trigger in process_payload are Connection code with loops and are outside the claim."),
  "C16": ("DatagramState kernels with <= 1 queued datagram (oldest dropped first, window never exceeded, send-buffer accounting consistent) under Kani; and on the MIR of the real Connection methods: Datagrams::max_size = min(peer limit - 9, MTU - overhead - 9), Datagrams::send admits exactly what fits (Disabled / UnsupportedByPeer / TooLarge / Blocked verdict table), DatagramState::write emits a frame iff the frame as encoded fits.",
          "Partial: queues of two or more datagrams (VecDeque::retain / pop loops) exhaust CBMC; the call sites in populate_packet / loss handling and at-most-once under packet duplication (C01.a + handle_packet) are outside (DESIGN §4 C16, §9)."),
+ "C17": ("Two kernels of the 0-RTT contract: when early data is REJECTED, StreamsState::zero_rtt_rejected followed by the server's fresh parameters leaves exactly the fresh connection / stream-count limits in force and no early byte accounted (every remembered and fresh value, every amount of early data); when it is ACCEPTED, TransportParameters::validate_resumption_from refuses fresh parameters that reduce any limit the client may already have relied on.",
+         "Narrow: exactly-once delivery of early data, its disappearance on rejection, per-stream rejection reports and everything over the stream hash maps with streams open are outside the claim (hashbrown does not finish in CBMC; DESIGN §4 C17)."),
  "C19": ("Control-message encoder/decoder stay within their buffers and round-trip (level, type, value) for every option subset prepare_msg uses; ECN/stride decoding of symbolic control blocks; the receive control buffer (cmsg::LEN) holds every set of control messages Linux attaches for the options the socket enables (timestamp, GRO, packet info, TOS/traffic class; IPv4 and IPv6); the real prepare_msg conveys destination, ECN bits, segment size and requested source address for every Transmit; the GSO probe leaves no socket-wide segmentation behind (quinn-udp MIR).",
          "cmsg layer only: sockets, GSO/GRO and fallbacks are kernel behaviour behind FFI (DESIGN §4 C19)."),
 }
 
 NOT_APPLICABLE = {
  "C02": "Liveness under fairness over two endpoints, a lossy network and a driver: bounded model checking gives no liveness and Connection::{poll_transmit,handle_timeout} cannot be encoded (Connection::new alone exceeds 25 min of symbolic execution; hashbrown).",
- "C17": "0-RTT acceptance/rejection rollback is Connection + StreamsState::zero_rtt_rejected over the stream hash maps (hashbrown insert/remove does not finish in CBMC).",
  "C18": "A statement about task interleavings, wakers and tokio; Kani/CBMC do not model concurrency and the async layer cannot be encoded.",
  "C20": "A relation between whole runs of Connection/Endpoint (determinism, time-translation); the runs cannot be executed symbolically. TimerTable facts are checked under C08.",
 }
